@@ -305,6 +305,21 @@ def expected_info(c, r):
     return first_dependent_column(n, cols)
 
 
+def late_with_stored_zeros(c, bad):
+    """the deficiency was reported LATE (or not at all) on a matrix that stores exact zeros in columns that are not entirely zero"""
+    import re
+    m = re.match(r"STRUCT info = (\d+), expected (\d+)", bad)
+    if not m or not (int(m.group(1)) == 0 or int(m.group(1)) > int(m.group(2))):
+        return False
+    ncomp = 2 if c["prec"] in "cz" else 1
+    for j in range(c["n"]):
+        vs = [tuple(c["vals"][ncomp * p: ncomp * p + ncomp]) for p in range(c["colptr"][j], c["colptr"][j + 1])]
+        z = [all(x == 0 for x in v) for v in vs]
+        if any(z) and not all(z):
+            return True
+    return False
+
+
 def info_parts(r):
     """per worker, the infos (0 or column+1) of its pivot searches in its own order, as the hook logged them"""
     parts = {}
@@ -416,8 +431,11 @@ def run(ctx):
                     # a double free, a hang, an abort -- is a different violation)
                     key = {"kind": "singular", "class": "structural_singularity_crash",
                            "how": "timeout" if r.get("timeout") else r.get("site", "?").split("@")[0]}
-                elif bad.startswith("STRUCT") and (structural or c["kind"] == "zerorow"):
-                    # (an explicitly stored zero ROW is a rank deficiency that shows only through fill, like the structural kinds)
+                elif bad.startswith("STRUCT") and (structural or c["kind"] == "zerorow" or late_with_stored_zeros(c, bad)):
+                    # (an explicitly stored zero ROW is a rank deficiency that shows only through fill, like the structural kinds; so
+                    #  are explicitly stored zeros on the diagonals of OTHER columns (threshold-0 cases) when they make the leading
+                    #  columns structurally rank deficient: the candidates of the dependent column are rounding residues of fill, and
+                    #  the library reports a later column or none)
                     key = {"kind": "singular", "class": "structural_rank_deficiency_not_reported"}
                 else:
                     key = {"kind": "singular", "what": bad[:28], "sub": c["kind"]}
